@@ -212,6 +212,33 @@ func c01Cases(tier string) []SyncCase {
 			}
 		}
 	}
+	// names from another era: not valid UTF-8 (latin-1, shift-jis), at the length limit, beginning with two dots, with
+	// pattern metacharacters and spaces - as files with content, directories and link targets, from disk and memory
+	{
+		T := fsmodel.T0
+		f := func(p string, seed, size int) fsmodel.Node {
+			return fsmodel.Node{Path: p, Kind: fsmodel.File, Perm: 0644, Mtime: T + int64(seed), Data: fsmodel.Content(seed, size)}
+		}
+		dd := func(p string, seed int) fsmodel.Node {
+			return fsmodel.Node{Path: p, Kind: fsmodel.Dir, Perm: 0755, Mtime: T + int64(seed)}
+		}
+		odd := fsmodel.Tree{f("caf\xe9.txt", 1, 9), dd("d\xe8s", 2), f("d\xe8s/\x83\x65.bin", 3, 32785), f("d\xe8s/plain", 4, 3),
+			{Path: "l\xff", Kind: fsmodel.Symlink, Perm: 0777, Mtime: T + 5, Link: "d\xe8s/\x83\x65.bin"},
+			dd("..data", 6), f("..data/token", 7, 40), f("..hidden", 8, 5), dd("a [1]*?", 9), f("a [1]*?/b\\c", 10, 6),
+			f(strings.Repeat("n", 255), 11, 7), dd(strings.Repeat("q", 255), 12), f(strings.Repeat("q", 255)+"/"+strings.Repeat("r", 250), 13, 33000)}
+		odd.Sort()
+		older := odd.Clone()
+		for i := range older {
+			if older[i].Kind == fsmodel.File {
+				older[i].Data, older[i].Mtime = fsmodel.Content(90+i, len(older[i].Data)/2+1), older[i].Mtime+50
+			}
+		}
+		for _, dst := range []fsmodel.Tree{nil, odd, older} {
+			for _, mem := range []bool{false, true} {
+				cases = append(cases, SyncCase{Src: odd, Dst: dst, Mem: mem}, SyncCase{Src: odd, Dst: dst, Mem: mem, Merge: true, Notify: true})
+			}
+		}
+	}
 	// leftovers of an aborted run: every stream call of a transfer with multi-chunk files fails in turn, then the same
 	// transfer runs fault-free over what is there
 	{
